@@ -158,7 +158,8 @@ def cases(ctx):
 # ---------------------------------------------------------------------------
 # damaged indexes and the line grammar that says which of them are malformed
 
-DAMAGE_OPS = ['crlf', 'crlf+empty-line', 'truncate', 'truncate-in-blanks', 'stray-line', 'append', 'prepend']
+DAMAGE_OPS = ['crlf', 'crlf+empty-line', 'truncate', 'truncate-in-blanks', 'stray-line', 'append', 'prepend', 'nothing']
+NOTHINGS = ['', '', '\n', ' \n', '\n\n', '\t', '\r\n']
 STRAY_LINES = ['\x0c\n', '\r\n', ' \x0b\n', '\x1c\n', 'garbage here\n', '<html><body>404 Not Found</body></html>\n', '\xa0\n',
                '\u2028\n', '-\n', ':\n', ' \x0c \n', '\x85\n', '\t\r\n']
 APPENDS = [' ', '\t', '\n', ' \n', '\n\n', '\r\n', '\x0c', '  \t', '\n \x0c\n', '\x0b\n']
@@ -169,6 +170,8 @@ _RE_CONT = re.compile(r'^\s+(?:\.|(\S.*?)\s*)$')
 
 def damage_index(idx, fault):
     op, a, b = fault['op'], fault['a'], fault['b']
+    if op == 'nothing':
+        return NOTHINGS[b % len(NOTHINGS)]          # a 0-byte / blank-only Index: exists, holds no field at all
     if op == 'crlf':
         return idx.replace('\n', '\r\n')
     if op == 'crlf+empty-line':
@@ -508,7 +511,9 @@ def _one(ctx, case, d, count_only=False):
         malformed = None
         if kind == 'damaged-index':
             with open(os.path.join(root, 'Packages.diff', 'Index'), encoding='utf-8', newline='') as f:
-                malformed = index_malformed(f.read())
+                itext = f.read()
+                # an index without a single field is as unusable as one that cannot be read at all
+                malformed = index_malformed(itext) or itext.strip() == ''
             ctx.count('damaged-index:%s:%s' % (fault['op'], 'malformed' if malformed else 'grammatical'))
             ctx.count('damaged-index:%s' % ('malformed' if malformed else 'grammatical'))
         index_usable = kind not in ('no-index', 'bad-index') and not malformed
